@@ -164,7 +164,7 @@ for name, inst, tags, tier in [
     ("step_up1_bump_b0", "up, MIN_ALIGN 1, &Bump, no new chunk: all 6 ops", OPS_ALL + ["up", "b0"], "quick"),
     ("step_down1_bump_b0", "down, MIN_ALIGN 1, &Bump, no new chunk: all 6 ops", OPS_ALL + ["b0"], "quick"),
     ("step_up8_bump_b0", "up, MIN_ALIGN 8", OPS_ALL + ["up", "b0"], "thorough"),
-    ("step_down16_bump_b0", "down, MIN_ALIGN 16 (every block 16-aligned: no unfit shrink)", [t for t in OPS_ALL if t != "unfit"] + ["b0"], "thorough"),
+    ("step_down16_bump_b0", "down, MIN_ALIGN 16 (every block 16-aligned: no unfit shrink)", [t for t in OPS_ALL if t not in ("unfit", "op6")] + ["b0"], "thorough"),
     ("step_up4_scope_b0", "up, MIN_ALIGN 4, through BumpScope (as_scope)", OPS_ALL + ["up", "b0"], "thorough"),
     ("step_up1_nodealloc_b0", "up, WithoutDealloc(&bump)", OPS_ALL + ["up", "b0"], "thorough"),
     ("step_down1_nodealloc_b0", "down, WithoutDealloc(&bump)", OPS_ALL + ["b0"], "thorough"),
@@ -184,7 +184,7 @@ for name, inst, tags, tier in [
     ("step_up1_switch_split", "up: split B, give back the upper part, allocate L(24,8) => chunk 2", ["op6", "b1"], "thorough"),
     ("step_up1_switch_grow", "up: grow to L(20,4) => chunk 2", ["op2", "b1"], "thorough"),
     ("step_up1_switch_grow_zeroed", "up: grow_zeroed to L(20,4) => chunk 2", ["b1"], "thorough"),
-    ("step_up1_switch_shrink_unfit", "up: shrink of an 8-byte block to L(8,16) (unfit alignment)", ["op4", "unfit"], "thorough"),
+    ("step_up1_switch_shrink_unfit", "up: shrink of an 8-byte block to L(8,16) (unfit alignment)", ["unfit"], "thorough"),
     ("step_down1_switch_alloc", "down: allocate L(24,8) => chunk 2", ["op0", "b1"], "thorough"),
     ("step_down1_switch_zeroed", "down: allocate_zeroed L(24,8) => chunk 2", ["b1"], "thorough"),
     ("step_down1_switch_dealloc_alloc", "down: deallocate(B) + allocate L(24,8) => chunk 2", ["op5", "b1"], "thorough"),
@@ -203,9 +203,9 @@ for name, inst, tier in [
 
 # C14 claim
 for name, inst, tags, tier in [
-    ("claim_up1_b0", "up, guard allocates inside the first chunk", [], "quick"),
-    ("claim_up1_b1", "up, guard's request L(24,8) creates chunk 2", ["b1"], "quick"),
-    ("claim_down1_b0", "down", [], "quick"),
+    ("claim_up1_b0", "up, guard allocates inside the first chunk", ["room"], "quick"),
+    ("claim_up1_b1", "up, guard's request L(24,8) creates chunk 2", ["b1", "room"], "quick"),
+    ("claim_down1_b0", "down", ["room"], "quick"),
     ("claim_down8_b1", "down, MIN_ALIGN 8, chunk 2 created through the guard", ["b1"], "thorough"),
     ("claim_up16_b0", "up, MIN_ALIGN 16", [], "thorough"),
     ("claim_unallocated", "claim on an unallocated arena (GUARANTEED_ALLOCATED = false)", [], "quick"),
@@ -288,6 +288,8 @@ for name, inst, tags, tier in [
     ("aligned_1_to_8_up_b0", "raise 1 -> 8, up", ["room"], "quick"),
     ("aligned_1_to_16_down_b0", "raise 1 -> 16, down", [], "quick"),
     ("aligned_16_to_1_up_b0", "lower 16 -> 1, up", [], "quick"),
+    ("aligned_1_to_8_down_b0", "raise 1 -> 8, down (deallocation of the newest block inside the region reachable)", ["room"], "quick"),
+    ("aligned_2_to_4_down_b0", "raise 2 -> 4, down", ["room"], "thorough"),
     ("aligned_8_to_2_down_b0", "lower 8 -> 2, down", [], "thorough"),
     ("aligned_4_to_1_up_b1", "lower 4 -> 1, up, chunk switch while lowered", ["b1", "room"], "quick"),
     ("aligned_16_to_2_down_b1", "lower 16 -> 2, down, chunk switch while lowered", ["b1", "room"], "thorough"),
@@ -439,6 +441,9 @@ for _n in ["vec_push_grow_up1_newest", "vec_push_grow_down1_newest", "vec_push_g
            "fail_vec_up", "fail_vec_down", "entry_vec_typed_vs_dyn_up1", "entry_vec_typed_vs_dyn_nodealloc_up1", "entry_vec_typed_vs_dyn_nodealloc_down4",
            "entry_vec_typed_vs_dyn_noshrink_down1"]:
     EXPERIMENTAL[_n] = "BumpVec on the real arena: not decided within 30 min / 20 GB"
+EXPERIMENTAL["step_down1_switch_grow"] = "out of memory (downward grow into a new chunk: overlapping-copy case split on top of the chunk switch)"
+for _n in ["scope_scoped_down1_b1", "scope_checkpoint_down4_b1", "claim_down8_b1", "aligned_16_to_2_down_b1"]:
+    EXPERIMENTAL[_n] = "downward chunk switch inside a scope/claim/aligned region: exceeds 16 GB (DESIGN.md 2.5: downward multi-chunk shapes)"
 EXPERIMENTAL["pool_overlap_then_reset"] = "out of memory at 17 GB (two arenas + pool.reset walking both)"
 
 
